@@ -10,7 +10,8 @@ import numpy as np
 from harness.core import Machinery
 
 JVM = {'JAVA_TOOL_OPTIONS': '-Xss32m'}     # deep (but finite) recursion of the day-by-day operators
-CPU_LIMIT = 10.0      # virtual CPU seconds for one public call (calls take < 1 ms when they terminate)
+CPU_LIMIT = 3.0       # virtual CPU seconds for one public call (calls take < 1 ms when they terminate)
+CAP = 200             # stop replaying once this many violations are recorded (the verdict is settled)
 
 
 class _Timeout(BaseException):
@@ -146,17 +147,26 @@ def case_of(cfg, q, **more):
 def s2c_arith(ctx, lines):
     k = 0
     for line in lines:
+        if len(ctx.violations) >= CAP:
+            ctx.assumptions.append('arithmetic replay stopped early after %d violations' % len(ctx.violations))
+            return
         cfg, t = line['cfg'], line['t']
         reg = Registry()
         try:
             how = 'class' if k % 3 else ('registry' if cfg['adj'] == 'm' else 'object')
-            cal = make(cfg, reg.key('x'), how)
+            try:
+                cal = make(cfg, reg.key('x'), how)
+            except Exception as e:
+                ctx.violation('construct', {'op': 'construct', 'kind': 's2c', 'how': how, 'cfg': cfg}, {'observed': type(e).__name__})
+                continue
             for op, n, u, a, want in line['cases']:
                 q = qdict(op, t, n, u, a)
                 out = ask(cal, q)
                 ctx.evals += 1
                 if not any(out == {'kind': 'val', 'v': w} for w in want):
                     ctx.violation(op, case_of(cfg, q, how=how, kind='s2c'), {'expected_one_of': want, 'observed': out})
+                    if out.get('cls') == 'DidNotTerminate':
+                        break
             after = holidays_of(cal)
             if after != {'kind': 'val', 'v': cfg['hol']}:
                 ctx.violation('registry_reflects_holidays', {'op': 'fetch', 'kind': 's2c', 'how': how, 'cfg': cfg},
@@ -175,58 +185,59 @@ def s2c_arith(ctx, lines):
 _reported = set()
 
 
-def replay_history(ctx, hist):
+REG_E = datetime.date(2000, 1, 31).toordinal()      # the menu calendars of MC_CalendarReg range over E - 25 .. E + 27
+REG_LO, REG_HI = REG_E - 25, REG_E + 27
+
+
+def do_event(ev, heap, reg):
+    """one event of a registry history through the public API; returns the encoded outcome"""
     from pyg_base import Calendar, calendar
+    op = ev['op']
+    if op == 'Register':
+        cal = calendar(reg.key(ev['k']), [D(o) for o in ev['hol']], list(ev['wk']), D(REG_LO), D(REG_HI))
+        heap.append(cal)
+        return holidays_of(cal)
+    if op == 'Construct':
+        cal = Calendar(reg.key(ev['k']), [D(o) for o in ev['hol']], list(ev['wk']), D(REG_LO), D(REG_HI), ev['adj'])
+        heap.append(cal)
+        return holidays_of(cal)
+    if op == 'RegisterObject':
+        obj = heap[ev['o'] - 1]
+        calendar(obj)
+        return holidays_of(calendar(obj.key))
+    if op == 'RegisterObjectWith':
+        obj = heap[ev['o'] - 1]
+        heap.append(calendar(obj, holidays=[D(o) for o in ev['hol']]))
+        return holidays_of(calendar(obj.key))
+    if op == 'Fetch':
+        return holidays_of(calendar(reg.key(ev['k'])))
+    if op == 'Query':
+        return ask(calendar(reg.key(ev['k'])), ev['q'])
+    if op == 'QueryObj':
+        return ask(heap[ev['o'] - 1], ev['q'])
+    raise Machinery('unknown event %r' % (ev,))
+
+
+def replay_history(ctx, hist):
     reg = Registry()
     heap = []            # real objects in the order the specification allocates them
-    lo, hi = None, None
     try:
         for i, ev in enumerate(hist):
-            op = ev['op']
-            got = None
-            if op in ('Register', 'Construct'):
-                # the range of the menu calendars of MC_CalendarReg: E - 25 .. E + 27 around 2000-01-31
-                E = datetime.date(2000, 1, 31).toordinal()
-                lo, hi = E - 25, E + 27
-                hol = [D(o) for o in ev['hol']]
-                if op == 'Register':
-                    cal = calendar(reg.key(ev['k']), hol, list(ev['wk']), D(lo), D(hi))
-                else:
-                    cal = Calendar(reg.key(ev['k']), hol, list(ev['wk']), D(lo), D(hi), ev['adj'])
-                heap.append(cal)
-                got = holidays_of(cal)
-                want = {'kind': 'val', 'v': ev['want']}
-            elif op == 'RegisterObject':
-                obj = heap[ev['o'] - 1]
-                calendar(obj)
-                got = holidays_of(calendar(obj.key))
-                want = {'kind': 'val', 'v': ev['want']}
-            elif op == 'RegisterObjectWith':
-                obj = heap[ev['o'] - 1]
-                cal = calendar(obj, holidays=[D(o) for o in ev['hol']])
-                heap.append(cal)
-                got = holidays_of(calendar(obj.key))
-                want = {'kind': 'val', 'v': ev['want']}
-            elif op == 'Fetch':
-                got = holidays_of(calendar(reg.key(ev['k'])))
-                want = {'kind': 'val', 'v': ev['want']}
-            elif op == 'Query':
-                got = ask(calendar(reg.key(ev['k'])), ev['q'])
-                want = None
-            elif op == 'QueryObj':
-                got = ask(heap[ev['o'] - 1], ev['q'])
-                want = None
-            else:
-                raise Machinery('unknown event %r' % (ev,))
+            try:
+                got = do_event(ev, heap, reg)
+            except Machinery:
+                raise
+            except Exception as e:
+                got = {'kind': 'exc', 'cls': type(e).__name__}
             ctx.evals += 1
-            if want is not None:
-                ok = got == want
-                clause = 'registry_reflects_holidays'
-            else:
+            if 'q' in ev:
                 ok = any(got == {'kind': 'val', 'v': w} for w in ev['want'])
                 clause = 'registry_query_' + ev['q']['op']
+            else:
+                ok = got == {'kind': 'val', 'v': ev['want']}
+                clause = 'registry_reflects_holidays'
             if not ok:
-                case = {'op': op, 'kind': 'history', 'step': i + 1, 'ops': [e['op'] for e in hist[:i + 1]],
+                case = {'op': ev['op'], 'kind': 'history', 'step': i + 1, 'ops': [e['op'] for e in hist[:i + 1]],
                         'holidays_empty': ev.get('hol') == [], 'history': hist[:i + 1]}
                 if 'q' in ev:
                     case.update({'query': ev['q']['op'], 'n': ev['q']['n'], 'path': 'table' if abs(ev['q']['n']) > 1 else 'loop'})
@@ -239,27 +250,27 @@ def replay_history(ctx, hist):
         reg.clean()
 
 
-def s2c_registry(ctx, emitted, leaves):
+def s2c_registry(ctx, emitted):
     """TLC's simulator prints, for every random behaviour, all complete histories that share its first
-    Depth - 1 steps; up to `leaves` of each family (seeded choice) are replayed"""
-    fam = {}
+    Depth - 1 steps (the last step is exhaustive over the enabled actions); all of them are replayed"""
+    seen = set()
+    k = 0
     for e in emitted:
         hist = e['hist']
-        fam.setdefault(repr(hist[:-1]), {})[repr(hist[-1])] = hist
-    k = 0
-    for pre in fam:
-        hs = list(fam[pre].values())
-        if len(hs) > leaves:
-            hs = ctx.rng.sample(hs, leaves)
-        for hist in hs:
-            replay_history(ctx, hist)
-            ctx.traces += 1
-            ops = [ev['op'] for ev in hist]
-            if sum(o.startswith('Register') for o in ops) >= 2 and any(o == 'Query' for o in ops):
-                ctx.note(('hist', repr(hist)))
-            if k % 999 == 0:
-                ctx.sample({'s2c_registry_history': hist})
-            k += 1
+        if repr(hist) in seen:
+            continue
+        seen.add(repr(hist))
+        if len(ctx.violations) >= CAP:
+            ctx.assumptions.append('history replay stopped early after %d violations' % len(ctx.violations))
+            return
+        replay_history(ctx, hist)
+        ctx.traces += 1
+        ops = [ev['op'] for ev in hist]
+        if sum(o.startswith('Register') for o in ops) >= 2 and any(o == 'Query' for o in ops):
+            ctx.note(('hist', repr(hist)))
+        if k % 999 == 0:
+            ctx.sample({'s2c_registry_history': hist})
+        k += 1
 
 
 # ---- C2S: random realistic calendars, validated by Trace_Calendar ----------------------------------
@@ -362,15 +373,27 @@ def observe_calendar(rng, cfg, qs, i):
         if decoy:
             a, b = cfg['lo'] + MARGIN, cfg['hi'] - MARGIN
             other = sorted(set(rng.randrange(a, b + 1) for _ in range(rng.choice([0, 5, 40]))))
-            d = calendar(key, [D(o) for o in other], list(rng.choice(WEEKENDS)), D(cfg['lo']), D(cfg['hi']))
-            d.add(D(a), 5)                                    # builds the decoy's table
+            wk = list(rng.choice(WEEKENDS))
+            try:
+                d = calendar(key, [D(o) for o in other], wk, D(cfg['lo']), D(cfg['hi']))
+                ask(d, qdict('add', a, 5, 0, ''))             # builds the decoy's table
+            except Exception:
+                pass                                          # the decoy is only a disturbance; the real calendar is judged
         how = 'registry' if (cfg['adj'] == 'm' and rng.random() < 0.6) else 'object'
-        make(cfg, key, how)
         events = []
+        try:
+            make(cfg, key, how)
+        except Exception as e:
+            return {'cfg': cfg, 'how': how, 'decoy': decoy,
+                    'qs': [{'q': qdict('fetch', 0, 0, 0, ''), 'out': {'kind': 'exc', 'cls': type(e).__name__}}]}
+        hung = 0
         for q in qs:
             cal = calendar(key)
             out = holidays_of(cal) if q['op'] == 'fetch' else ask(cal, q)
             events.append({'q': q, 'out': out})
+            hung += out.get('cls') == 'DidNotTerminate'
+            if hung >= 2:
+                break
         events.append({'q': qdict('fetch', 0, 0, 0, ''), 'out': holidays_of(calendar(key))})   # the operand after the calls
         return {'cfg': cfg, 'how': how, 'decoy': decoy, 'qs': events}
     finally:
@@ -412,6 +435,35 @@ def c2s(ctx, ncal, nq):
     return obs
 
 
+def replay(ctx, body):
+    """./check C05 --replay <file>: re-execute one recorded violation (history: against the expectations TLC
+    printed; arithmetic: the query is put to a fresh calendar and judged again by Trace_Calendar)"""
+    signal.signal(signal.SIGVTALRM, _alarm)
+    case = body['case']
+    if case.get('kind') == 'history':
+        replay_history(ctx, case['history'])
+    else:
+        cfg = case['cfg']
+        q = qdict('fetch', 0, 0, 0, '') if case['op'] == 'fetch' else qdict(case['op'], case['t'], case['n'], case['u'],
+                                                                         case['adj'] if case.get('explicit_adj') else '')
+        reg = Registry()
+        try:
+            how = case.get('how', 'class')
+            cal = make(cfg, reg.key('r'), how)
+            out = holidays_of(cal) if q['op'] == 'fetch' else ask(cal, q)
+        finally:
+            reg.clean()
+        obs = [{'cfg': cfg, 'how': how, 'decoy': False, 'qs': [{'q': q, 'out': out}]}]
+        judge(ctx, obs, ctx.validate('Trace_Calendar', obs, env=JVM))
+    for v in ctx.violations:
+        print('STILL FAILS clause=%s detail=%s' % (v['clause'], str(v['detail'])[:300]))
+    if not ctx.violations:
+        print('no longer fails')
+    import shutil
+    shutil.rmtree(ctx.tmp, ignore_errors=True)
+    return 1 if ctx.violations else 0
+
+
 def run(ctx):
     signal.signal(signal.SIGVTALRM, _alarm)
     ctx.rule = ('S2C: (a) every in-domain query MC_Calendar enumerates for a seeded 1-in-GenMod sample of the configurations '
@@ -425,12 +477,13 @@ def run(ctx):
     ctx.mc('MC_Calendar', 'MC_Calendar_quick.cfg' if q else 'MC_Calendar_thorough.cfg', env=JVM)
     ctx.mc('MC_CalendarReg', 'MC_CalendarReg_quick.cfg' if q else 'MC_CalendarReg_thorough.cfg', env=JVM)
     if not q:
+        ctx.mc('MC_Calendar', 'MC_Calendar_thorough2.cfg', env=JVM)
         ctx.mc('MC_CalendarReg', 'MC_CalendarReg_thorough2.cfg', env=JVM)
     s2c_arith(ctx, ctx.generate('MC_Calendar', 'MC_Calendar_gen_quick.cfg' if q else 'MC_Calendar_gen_thorough.cfg',
                                 env={'C05_SEED': ctx.seed % 1000, **JVM}))
-    s2c_registry(ctx, ctx.generate('MC_CalendarReg', 'MC_CalendarReg_sim.cfg', simulate=60 if q else 1000, depth=8,
-                                   seed=ctx.seed, workers=1, env=JVM), 50 if q else 100)
-    c2s(ctx, 100 if q else 2000, 150)
+    s2c_registry(ctx, ctx.generate('MC_CalendarReg', 'MC_CalendarReg_sim.cfg', simulate=60 if q else 600, depth=8,
+                                   seed=ctx.seed, workers=1, env=JVM))
+    c2s(ctx, 200 if q else 2000, 150)
     ctx.exhaustive = False
     ctx.assumptions += [
         'holidays are given as midnight datetimes inside the calendar range; days asked about are midnight datetimes',
